@@ -1174,7 +1174,7 @@ func (rr *rpRunner) runs(cfg config, mi *msgInfo, r *rng) {
 }
 
 func engineReflectProg(cfg config, o *out) {
-	schemas := loadSchemas()
+	schemas := loadSchemasProg()
 	cc := newClassCov("reflectprog")
 	defer cc.emit(o)
 	for _, si := range schemas {
